@@ -291,6 +291,21 @@ def main(tier):
     # parser as one function, tied end to end to parse_document here
     layerc.whole(c, tier, 0.25 if quick else 0.5)
 
+    # ---- tables at the auto-completion cap (500000 cells): every row the parser keeps has exactly |alignments| cells
+    capdocs = [(1000, [1] * 520), (700, [2] * 800), (65535, [1] * 9)]
+    capres = vlib.run_lines(vh, ["tablerows6 table=1 %s" % hx("|a" * cols + "|\n" + "|-" * cols + "|\n" + "".join("|b" * r + "|\n" for r in rows)) for cols, rows in capdocs], timeout=900)
+    for (cols, rows), a in zip(capdocs, capres):
+        c.count(("cap:%d:%d" % (cols, len(rows))).encode(), True)
+        if not a.startswith("ok "):
+            c.problem("harness", "tablerows6", a[:200])
+            continue
+        nrows, ncells, _ = [int(x) for x in a[3:].split(" ")]
+        if ncells != nrows * cols:
+            c.violation("a table at the auto-completion cap has a row whose number of cells differs from the number of columns",
+                        {"columns": cols, "body_rows_written": len(rows), "rows_in_tree": nrows, "cells_in_tree": ncells,
+                         "line": "tablerows6 table=1 <%d columns, %d body rows of %d cell(s)>" % (cols, len(rows), rows[0])})
+    c.cov["spec_checks"]["tables at the auto-completion cap: cells = rows x columns"] = len(capdocs)
+
     # ---- correspondence nodes.table: the whole can_contain_type table, block, contains_inlines
     kinds = ast_kinds()
     impl = vlib.run_one(vh, "kinds " + " ".join(single(k) for k in kinds))
